@@ -1,5 +1,8 @@
 use crate::A2lError;
+#[cfg(a2lfile_verif)]
+use crate::verif_hooks::File;
 use std::ffi::{OsStr, OsString};
+#[cfg(not(a2lfile_verif))]
 use std::fs::File;
 use std::io::Read;
 use std::path::{Path, MAIN_SEPARATOR};
@@ -16,6 +19,8 @@ pub(crate) fn make_include_filename(incname: &str, base_filename: &OsStr) -> OsS
     }
 
     let base = Path::new(base_filename);
+    #[cfg(a2lfile_verif)]
+    let base = crate::verif_hooks::SimPath::new(base);
 
     // If base has a parent directory, resolve relative path
     if let Some(basedir) = base.parent() {
